@@ -1,7 +1,9 @@
 """C01 Complete recovery from any loss within the parity level."""
 import arrayprop, directed
 
-SHAPES = [(2, 1), (3, 2), (4, 3), (2, 6), (1, 2), (5, 4), (3, 5), (6, 2), (1, 1), (4, 6), (2, 2), (3, 3)]
+SHAPES = [(2, 1), (3, 2), (4, 3), (2, 6), (1, 2), (5, 4), (3, 5), (6, 2), (1, 1), (4, 6), (2, 2), (3, 3),
+          (3, 3, {"zmode": True}), (2, 2, {"hash_kind": "spooky2"}), (3, 2, {"splits": [2, 1]}), (2, 1, {"hash_size": 8}),
+          (4, 3, {"zmode": True, "hash_size": 4}), (2, 3, {"splits": [1, 2, 3], "hash_kind": "spooky2"})]
 
 
 def run(tier):
